@@ -65,6 +65,11 @@ CHECKS = {
          "Every byte offset of every real delimited stream is a cut; the streaming parser is drained item by item and each record (frame extents, items per frame, cut, yielded, outcome) is judged by TLC (spec/TraceFraming.tla: prefix, completeness, nothing from an undelivered frame); "
          "TLC also closes spec/PyFraming.tla for every cut of small concrete streams over all read schedules (PrefixOnly, NeverMore).",
          "byte-level exhaustive truncation per stream, TLC trace judging (TraceFraming) + TLC model checking of PyFraming cuts"),
+ "C11": ("model_checking", "6 C11",
+         "spec/PyPipeline.tla models the generator pipelines one action per generator step; TLC checks the action properties BoundedBuffering, FrameBeforeInput, NoFurtherThanCompleting and termination on the write side and Live / NoReadAhead on the read side for every stall point, "
+         "and refutes a read-ahead serializer and a look-ahead parser (non-vacuity). Real pipelines (flat_stream_to_frames, stream_frames over TRIPLES/QUADS statement iterators, both integrations) are instrumented from outside and every event log is validated by TLC as a behaviour of the model "
+         "with the Tier-1 clauses evaluated on logged values (spec/TracePipeline.tla); on the read side a source that stalls forever after frame j must see every item of frames 1..j yielded.",
+         "TLC model checking of spec/PyPipeline.tla (action properties, liveness) + TLC trace validation of recorded pipeline event logs"),
  "C13": ("model_checking", "6 C13",
          "spec/PyHeader.tla states the reader contract for headers (forbidden physical/logical pairs, name table >= 8, tables <= 4096, version <= 2, strict flat/grouped gates, non-strict independence of the logical type); TLC enumerates the complete lattice "
          "pt x 8 logical types x table sizes {7,8,4096,4097} x versions x {flat,grouped} x strict with the expected outcome of each point; each point becomes bytes (by /verif's codec, also for pairs pyjelly's writer refuses) and goes through both integrations' parsers. "
